@@ -141,6 +141,7 @@ func replayGroupCases(t *testing.T) {
 	}
 	sort.Strings(files)
 	for _, path := range files {
+		fmt.Printf("REPLAY-START property=C16 file=%s\n", path)
 		var g GroupCase
 		if err := json.Unmarshal(cases[path], &g); err != nil {
 			t.Fatalf("%s: %v", path, err)
